@@ -38,6 +38,10 @@ pub fn ids(id: Identifier) -> String {
 pub fn idj(id: Identifier) -> Value {
     Value::String(ids(id))
 }
+pub fn idp(id: Identifier) -> Value {
+    let (i, g) = brood::verif::id_parts(id);
+    json!([i, g])
+}
 
 pub struct Slot {
     pub world: Wd,
@@ -113,6 +117,7 @@ pub fn dump_json(world: &Wd) -> Value {
             "bits": bits(&t.bytes), "len": t.len,
             "ids": t.ids.iter().map(|(i, g)| json!(format!("{i}.{g}"))).collect::<Vec<_>>(),
             "idx": t.ids.iter().map(|(i, _)| json!(i)).collect::<Vec<_>>(),
+            "idg": t.ids.iter().map(|(i, g)| json!([i, g])).collect::<Vec<_>>(),
             "idcap": t.ids_capacity.min(1 << 30), "caps": t.capacities.iter().map(|c| (*c).min(1 << 30)).collect::<Vec<_>>(),
         })).collect::<Vec<_>>(),
         "tl": d.type_lookup.iter().map(|l| json!(l.value_table)).collect::<Vec<_>>(),
@@ -162,7 +167,11 @@ impl Driver {
     fn resolve(&mut self, w: usize, e: &Value) -> Identifier {
         if let Some(k) = e.get("k").and_then(|k| k.as_u64()) {
             let s = self.slot(w);
-            s.issued[(k as usize - 1) % s.issued.len().max(1)]
+            if s.issued.is_empty() {
+                // nothing issued yet in this lineage: an identifier that was never issued
+                return brood::verif::id_from_parts(0, 0);
+            }
+            s.issued[(k as usize - 1) % s.issued.len()]
         } else if let Some(f) = e.get("forge") {
             brood::verif::id_from_parts(f[0].as_u64().unwrap() as usize, f[1].as_u64().unwrap())
         } else {
@@ -392,7 +401,7 @@ impl Driver {
             "remove" => {
                 let id = self.resolve(w, &op["e"]);
                 { let s = self.slot(w); heap::lib(|| s.world.remove(id)); }
-                json!({"id": idj(id)})
+                json!({"id": idj(id), "idp": idp(id)})
             }
             "clear" => {
                 { let s = self.slot(w); heap::lib(|| s.world.clear()); }
@@ -417,7 +426,7 @@ impl Driver {
                     }
                     None => false,
                 };
-                json!({"id": idj(id), "res": {"found": found}})
+                json!({"id": idj(id), "idp": idp(id), "res": {"found": found}})
             }
             "add2" => {
                 // two shape changes through one Entry handle (the handle's cached location must
@@ -449,7 +458,7 @@ impl Driver {
                     }
                     None => false,
                 };
-                json!({"id": idj(id), "res": {"found": found}})
+                json!({"id": idj(id), "idp": idp(id), "res": {"found": found}})
             }
             "remc" => {
                 let id = self.resolve(w, &op["e"]);
@@ -469,7 +478,7 @@ impl Driver {
                     }
                     None => false,
                 };
-                json!({"id": idj(id), "res": {"found": found}})
+                json!({"id": idj(id), "idp": idp(id), "res": {"found": found}})
             }
             "qmut" => {
                 let c = op["c"].as_u64().unwrap();
